@@ -238,3 +238,116 @@ pub fn ec_pkcs8(nid: openssl::nid::Nid) -> Vec<u8> {
 pub fn ed25519_pkcs8() -> Vec<u8> {
 	PKey::generate_ed25519().unwrap().private_key_to_pkcs8().unwrap()
 }
+
+// ---------------------------------------------------------------- path validation helpers
+
+/// Verdict of a path validator: Ok(()) accepted, Err(reason) rejected.
+pub type Verdict = Result<(), String>;
+
+pub struct VerifyOpts<'a> {
+	pub at_unix: i64,
+	pub purpose: Option<openssl::x509::X509PurposeId>,
+	pub host: Option<&'a str>,
+	pub ip: Option<std::net::IpAddr>,
+	pub crl_pem_files: Vec<std::path::PathBuf>,
+	pub crl_check: bool,
+	pub x509_strict: bool,
+}
+
+impl<'a> VerifyOpts<'a> {
+	pub fn at(at_unix: i64) -> Self {
+		VerifyOpts {
+			at_unix,
+			purpose: None,
+			host: None,
+			ip: None,
+			crl_pem_files: vec![],
+			crl_check: false,
+			x509_strict: false,
+		}
+	}
+}
+
+/// X509_verify_cert of `leaf` with untrusted `intermediates` against exactly the `trust` certificates.
+pub fn openssl_verify(leaf: &[u8], intermediates: &[Vec<u8>], trust: &[Vec<u8>], o: &VerifyOpts<'_>) -> Result<Verdict, String> {
+	use openssl::stack::Stack;
+	use openssl::x509::store::{X509Lookup, X509StoreBuilder};
+	use openssl::x509::verify::{X509VerifyFlags, X509VerifyParam};
+	use openssl::x509::{X509StoreContext, X509};
+	let e = |x: openssl::error::ErrorStack| x.to_string();
+	let leaf = X509::from_der(leaf).map_err(|x| format!("leaf does not parse: {}", x))?;
+	let mut sb = X509StoreBuilder::new().map_err(e)?;
+	for t in trust {
+		sb.add_cert(X509::from_der(t).map_err(|x| format!("trust anchor does not parse: {}", x))?).map_err(e)?;
+	}
+	let mut param = X509VerifyParam::new().map_err(e)?;
+	param.set_time(o.at_unix as _);
+	let mut flags = X509VerifyFlags::empty();
+	if o.crl_check {
+		flags |= X509VerifyFlags::CRL_CHECK;
+	}
+	if o.x509_strict {
+		flags |= X509VerifyFlags::X509_STRICT;
+	}
+	param.set_flags(flags).map_err(e)?;
+	if let Some(p) = o.purpose {
+		param.set_purpose(p).map_err(e)?;
+	}
+	if let Some(h) = o.host {
+		param.set_host(h).map_err(e)?;
+	}
+	if let Some(ip) = o.ip {
+		param.set_ip(ip).map_err(e)?;
+	}
+	sb.set_param(&param).map_err(e)?;
+	for f in &o.crl_pem_files {
+		let l = sb.add_lookup(X509Lookup::file()).map_err(e)?;
+		l.load_crl_file(f, openssl::ssl::SslFiletype::PEM).map_err(e)?;
+	}
+	let store = sb.build();
+	let mut chain = Stack::new().map_err(e)?;
+	for i in intermediates {
+		chain
+			.push(X509::from_der(i).map_err(|x| format!("intermediate does not parse: {}", x))?)
+			.map_err(e)?;
+	}
+	let mut ctx = X509StoreContext::new().map_err(e)?;
+	let res = ctx
+		.init(&store, &leaf, &chain, |c| {
+			let ok = c.verify_cert()?;
+			Ok((ok, c.error().error_string().to_string(), c.error_depth()))
+		})
+		.map_err(e)?;
+	Ok(if res.0 { Ok(()) } else { Err(format!("{} (depth {})", res.1, res.2)) })
+}
+
+/// webpki path validation. `usage`: 0 server auth, 1 client auth.
+pub fn webpki_verify(leaf: &[u8], intermediates: &[Vec<u8>], trust: &[Vec<u8>], at_unix: i64, usage: u8) -> Result<Verdict, String> {
+	use pki_types::{CertificateDer, UnixTime};
+	let anchors_der: Vec<CertificateDer<'_>> = trust.iter().map(|t| CertificateDer::from(t.as_slice())).collect();
+	let mut anchors = Vec::new();
+	for a in &anchors_der {
+		anchors.push(webpki::anchor_from_trusted_cert(a).map_err(|e| format!("anchor: {:?}", e))?);
+	}
+	let inter: Vec<CertificateDer<'_>> = intermediates.iter().map(|t| CertificateDer::from(t.as_slice())).collect();
+	let leaf_der = CertificateDer::from(leaf);
+	let ee = match webpki::EndEntityCert::try_from(&leaf_der) {
+		Ok(e) => e,
+		Err(e) => return Ok(Err(format!("EndEntityCert: {:?}", e))),
+	};
+	if at_unix < 0 {
+		return Err("webpki cannot express times before 1970".into());
+	}
+	let time = UnixTime::since_unix_epoch(std::time::Duration::from_secs(at_unix as u64));
+	let ku = if usage == 0 { webpki::KeyUsage::server_auth() } else { webpki::KeyUsage::client_auth() };
+	let r = ee.verify_for_usage(webpki::ALL_VERIFICATION_ALGS, &anchors, &inter, time, ku, None, None);
+	Ok(match r {
+		Ok(_) => Ok(()),
+		Err(e) => Err(format!("{:?}", e)),
+	})
+}
+
+/// does webpki (ring provider) support certificates signed with / carrying this algorithm?
+pub fn webpki_supports(a: SigAlg) -> bool {
+	!matches!(a, SigAlg::EcdsaSha512)
+}
